@@ -3,6 +3,7 @@ import keyword
 import typing
 from enum import Enum
 from sympy.printing.pycode import PythonCodePrinter
+from sympy.printing.precedence import precedence
 
 # from sympy.printing.numpy import NumPyPrinter
 from sympy.codegen.ast import Assignment
@@ -34,6 +35,11 @@ class GotranPythonCodePrinter(PythonCodePrinter):
     reserved_words = set(PythonCodePrinter.reserved_words).union(keyword.kwlist)
 
     def _hprint_Pow(self, expr, rational=False, sqrt="numpy.sqrt"):
+        if not expr.free_symbols:
+            # A power of two constants would be computed by Python itself, which raises
+            # OverflowError where every other operation of the generated code returns inf
+            exponent = self.parenthesize(expr.exp, precedence(expr), strict=False)
+            return f"numpy.float64({self._print(expr.base)})**{exponent}"
         return super()._hprint_Pow(expr, rational, sqrt)
 
     def _print_MatrixElement(self, expr):
